@@ -591,6 +591,16 @@ Definition eng_decoders (inp impl : node) : verdict :=
   | _ => bad
   end.
 
+(* ---------------- engine: cbor (ties Cbor.v to go-ipld-prime's dagcbor; serves C06, C07, C08, C17) ---------------- *)
+Definition eng_cbor (inp impl : node) : verdict :=
+  match inp with
+  | List [Str op; n] =>
+      let b := encode n in
+      let d := match dec (3 + length b) b with Some (x, []) => x | _ => Str (lit "model decoder failed") end in
+      {| model_obs := List [Bytes b; d]; violated := [] |}
+  | _ => bad
+  end.
+
 (* ---------------- engine: chain (C01-C05) ---------------- *)
 
 Definition dlg_of_node (n : node) : option dlg :=
@@ -694,7 +704,7 @@ Definition engines : list (str * (node -> node -> verdict)) :=
     (lit "selector", eng_selector);
     (lit "policy", eng_policy);
     (lit "chain", eng_chain);
-    (lit "selparse", eng_selparse); (lit "decoders", eng_decoders); (lit "conc", eng_conc); (lit "meta", eng_meta); (lit "container", eng_container); (lit "cid", eng_cid); (lit "stream", eng_stream); (lit "token", eng_token); (lit "did", eng_did); (lit "policyipld", eng_policyipld) ].
+    (lit "selparse", eng_selparse); (lit "cbor", eng_cbor); (lit "decoders", eng_decoders); (lit "conc", eng_conc); (lit "meta", eng_meta); (lit "container", eng_container); (lit "cid", eng_cid); (lit "stream", eng_stream); (lit "token", eng_token); (lit "did", eng_did); (lit "policyipld", eng_policyipld) ].
 
 Fixpoint find_engine (e : str) (l : list (str * (node -> node -> verdict))) : option (node -> node -> verdict) :=
   match l with
